@@ -21,6 +21,7 @@ OPN = {0: "contains", 1: "empty", 2: "extend(point)", 3: "extend(box)", 4: "clam
        40: "xfmBounds", 41: "xfmPoint", 50: "intersectRayBox"}
 SIG_DISJ = "C05-disjoint-inverted-empty-operand"
 SIG_RAY = "C05-intersectRayBox-empty-box"
+SIG_CTOP = "C05-center-int-bounds-above-INT_MAX-127"
 PROP_FILES = ("PropertiesOrd.v", "PropertiesId.v", "PropertiesBox.v", "PropertiesDef.v", "PropertiesCenter.v", "PropertiesRefuted.v", "PropertiesR.v")
 P124 = Fr(2) ** 124      # float boxes with huge extents: k * 2^124, |k| <= 15 (all sums/halves exact or overflowing)
 P24 = Fr(2) ** 24        # int boxes near INT_MAX: k * 2^24, |k| <= 127 (exactly convertible to float)
@@ -119,6 +120,47 @@ def oracle(op, code, a):
             near.append(min(m1, m2)); far.append(max(m1, m2))
         return [max(near), min(far)]
     return None
+
+
+def f32r(x):
+    """round to nearest-even binary32 (normal range)"""
+    x = Fr(x)
+    if x == 0: return x
+    n, e = abs(x), 0
+    while n >= 2 ** 24: n /= 2; e += 1
+    while n < 2 ** 23: n *= 2; e -= 1
+    f = n.numerator // n.denominator
+    r = n - f
+    m = f + 1 if (r > Fr(1, 2) or (r == Fr(1, 2) and f % 2 == 1)) else f
+    v = Fr(m) * (Fr(2) ** e)
+    return v if x > 0 else -v
+
+
+def center_int_status(code, nums, il):
+    """int center(): per component 'ok' | 'ub' | 'bad'.  Required: the exact truncated midpoint when |bounds| <= 2^23 or the binary32
+    route is exact; otherwise the midpoint within float rounding (1 + 2^-22 max|bound|).  'ub' = the requirement fails AND the binary32
+    route .5f*float(l)+.5f*float(u) rounds to 2^31, whose conversion to int is out of range (open finding SIG_CTOP)."""
+    name, n, ty = INSTS[code]
+    lo, hi = parts(nums, n, 2)
+    obs = il.split()
+    if len(obs) != n: return ["bad"] * n, None
+    st, req = [], []
+    for l, h, o in zip(lo, hi, obs):
+        mid = (l + h) / 2
+        fl, fh = f32r(l), f32r(h)
+        fs = f32r(fl / 2 + fh / 2)
+        mx = max(abs(l), abs(h))
+        exact_route = fl == l and fh == h and fs == mid
+        ov = untok(o)
+        if ov is None or ov in (INF, -INF):
+            ok = False
+        elif mx <= 2 ** 23 or exact_route:
+            ok = ov == trunc(mid)
+        else:
+            ok = abs(ov - mid) <= 1 + mx / 2 ** 22
+        req.append(tok(trunc(mid)) if (mx <= 2 ** 23 or exact_route) else "%s+-%s" % (tok(trunc(mid)), tok(trunc(1 + mx / 2 ** 22))))
+        st.append("ok" if ok else ("ub" if fs > IMAX else "bad"))
+    return st, " ".join(req)
 
 
 def show_obs(v):
@@ -338,6 +380,21 @@ def gen_cases(ctx):
             # (the overflow of the pre-repair expression .5f*(lower+upper), fixed by /repo 2d2c457): ordinary cases now
             (g.tail if ty == "i" else g.cases).append((6, code, lo + hi, "center_huge_sum"))
             g.kinds["center_huge_sum"] = g.kinds.get("center_huge_sum", 0) + 1
+    # int boxes with bounds in [INT_MAX-200, INT_MAX] and [INT_MIN, INT_MIN+200]: the midpoint is formed in binary32 (ulp 128 there)
+    for code, (name, n, ty) in INSTS.items():
+        if ty != "i": continue
+        for j in range(ctx.pick(24, 120)):
+            lo, hi = [], []
+            for i in range(n):
+                fam = r.choice(["top", "top", "bottom", "mixed"]) if j % 3 else ("top" if j % 2 else "bottom")
+                if fam == "top": a, b = IMAX - r.randint(0, 200), IMAX - r.randint(0, 200)
+                elif fam == "bottom": a, b = IMIN + r.randint(0, 200), IMIN + r.randint(0, 200)
+                else: a, b = IMIN + r.randint(0, 200), IMAX - r.randint(0, 200)
+                if j == 0: a, b = IMAX, IMAX
+                if j == 1: a, b = IMIN, IMIN
+                lo.append(Fr(min(a, b))); hi.append(Fr(max(a, b)))
+            g.tail.append((6, code, lo + hi, "center_int_limits"))
+            g.kinds["center_int_limits"] = g.kinds.get("center_int_limits", 0) + 1
     for _ in range(ctx.pick(300, 3000)):
         n = r.choice((2, 3))
         code = 21 if n == 2 else 31
@@ -448,6 +505,13 @@ def run(ctx):
             exp = oracle(op, code, nums)
             exps = show_obs(exp) if exp is not None else None
             ok_oracle = exps is None or exps == il
+            if op in (6, 22) and INSTS[code][2] == "i" and exp is not None:
+                st, exps = center_int_status(code, nums, il)
+                ok_oracle = all(x == "ok" for x in st)
+                if not ok_oracle and "bad" not in st:
+                    # every failing component has its binary32 midpoint rounded to 2^31: out-of-range float -> int conversion
+                    known.setdefault(SIG_CTOP, (lines[i] + "  (" + INSTS[code][0] + " " + toks(nums) + ")", il, exps))
+                    continue
             if ok_oracle and op == 50:
                 ok_oracle = ray_membership_ok(nums, INSTS[code][1], [untok(t) for t in il.split()])
             if not ok_oracle:
@@ -470,7 +534,7 @@ def run(ctx):
     # non-trivial cases: the input sits on a boundary (point on a face, boxes sharing a face coordinate, empty / inverted / degenerate operand)
     for c, l in zip(cases, lines):
         k = c[3]
-        if any(w in k for w in ("face", "touching", "empty", "inverted", "degenerate", "point", "identical", "grazing", "axis_parallel", "inside", "exh2d", "some_axes", "xfm_structured", "center_huge")):
+        if any(w in k for w in ("face", "touching", "empty", "inverted", "degenerate", "point", "identical", "grazing", "axis_parallel", "inside", "exh2d", "some_axes", "xfm_structured", "center_huge", "center_int_limits")):
             ctx.nontriv(l)
     # in-harness exhaustive grids
     rc, out, err = ctx.run_exe(exe, ["exh"] + (["thorough"] if ctx.thorough() else []), timeout=900)
@@ -520,6 +584,9 @@ def run(ctx):
         ctx.cov["center_fuzz"] = done[0]
         ctx.count(int(done[0].split("checks=")[1].split()[0]))
     for l in out.splitlines():
+        if l.startswith("KNOWN center-int-top"):
+            known.setdefault(SIG_CTOP, (l, "", ""))
+    for l in out.splitlines():
         if l.startswith("FAIL "):
             ctx.violation("center() is not the midpoint within rounding", {"clause": "center_midpoint", "input": l[5:],
                           "replay": "build/C05/harness fuzzc %d %d" % (ctx.seed, nc)})
@@ -545,10 +612,12 @@ def run(ctx):
                         "float rounding of xfmBounds / intersectRayBox is not modelled in Coq (ideal reading over R); it is compared numerically with tolerances "
                         "8*eps*sum|m_kj p_j| (xfmBounds) and 64*eps*(|lo|+|hi|+|org|+|t dir|) + 2|t|FLT_MIN (intersectRayBox; rcp_safe reads |dir_i|<FLT_MIN as +-FLT_MIN)",
                         "the generated text is translated with -DRKCOMMON_NO_SIMD (rcp(x) = 1.f/x); the SSE branch computes the same value by estimate + one Newton step",
-                        "center(): oracle = the exact midpoint (int: truncated toward zero) on every exact case (all generated midpoints are representable, "
-                        "float bounds >= 2^-125 in magnitude, int bounds multiples of 2^24 or small); random boxes: float within one rounding and exact when "
-                        "representable, int exact for |bounds| <= 2^23 and within 1 + 2^-22 max|bound| otherwise (the int route goes through binary32); "
-                        "int boxes with both bounds above INT_MAX-128 are not generated (float(bound) = 2^31, conversion back to int is undefined)",
+                        "center(): oracle = the exact midpoint for float boxes (every generated midpoint is representable; random boxes: within one "
+                        "rounding, exact when representable and no bound is below 2^-125); int boxes: the exact midpoint truncated toward zero when "
+                        "|bounds| <= 2^23 or the binary32 route is exact, otherwise within 1 + 2^-22 max|bound| (the int route goes through binary32); "
+                        "a failure is attributed to the open finding C05-center-int-bounds-above-INT_MAX-127 only when, in every failing component, "
+                        ".5f*float(l)+.5f*float(u) rounds to 2^31 (out-of-range float->int conversion: undefined behaviour, x86 INT_MIN; detected by value, "
+                        "gcc's -fsanitize=undefined does not include float-cast-overflow)",
                         "theorems about emptiness/disjointness/extend-leastness-as-sets assume operands that are non-empty or the canonical empty box; "
                         "inverted boxes are covered by the *_refuted theorems and the two known findings"]
     if ctx.thorough():
